@@ -42,6 +42,16 @@ out = eqx.combine(lax.cond(pred, lambda: part[0][0], lambda: part[0][1]), part[1
     scans5 = [x for x in walk(r5) if isinstance(x, tuple) and x and x[0] == "scan"]
     ok5 = len(scans5) == 1 and isinstance(r5, tuple) and r5[0] == "tuple" and len(r5[1]) == 2
     s.ob(rule, "lerax.utils.filter_scan", ok5, "filter_scan returns (carry, ys) of exactly one lax.scan", loc5, key="filter-scan-shape", detail=show(r5, maxlen=200))
+    # the defaults are lax.scan's: every call site that leaves an option out relies on them (all collection scans leave `reverse` out)
+    import ast as _ast
+    a5 = fn5.args
+    names5 = [x.arg for x in a5.posonlyargs + a5.args]
+    dflt = dict(zip(names5[len(names5) - len(a5.defaults):], a5.defaults))
+    dflt.update({k_.arg: d_ for k_, d_ in zip(a5.kwonlyargs, a5.kw_defaults) if d_ is not None})
+    want_d = {"length": "None", "reverse": "False", "unroll": "1"}
+    bad_d = [f"{k_}={_ast.unparse(dflt[k_])}" for k_, w_ in want_d.items() if k_ in dflt and _ast.unparse(dflt[k_]) != w_]
+    s.ob(rule, "lerax.utils.filter_scan", not bad_d, "the defaults of length / reverse / unroll are those of lax.scan (None / False / 1)", loc5, key="filter-scan-defaults",
+         detail="; ".join(bad_d), necessary_for="collection scans run num_steps steps in order; reverse scans stay reverse")
     if ok5:
         sc5 = scans5[0]
         part = ("call", ("global", "equinox.partition"), (("param", "init"), ("global", "equinox.is_array")), ())
